@@ -10,6 +10,7 @@ import Hcl.Model.Yo
 import Hcl.Spec.YoFormat
 import Hcl.Model.Dump
 import Hcl.Spec.DumpFormat
+import Hcl.Model.Cli
 
 /-! Line-protocol driver: one request S-expression per input line, one answer line per request.
     Answer format: `M <model result> ;; S <spec result>`. -/
@@ -315,6 +316,64 @@ def handleDump (fields : List SExp) : String :=
           s!"M {escapeNl model} ;; S {parsedOf implText} ;; V {canonState}"
   | _ => "bad-request no-stmts"
 
+/-- the `-d` tables of `n` cycles (each printed after the actions of the cycle, before the clock edge) -/
+def tablesN (fl : Flags) (p : Program) (grouped : Bool) : Nat → State → List String → List String × String
+  | 0, _, acc => (acc.reverse, "ok")
+  | n+1, s, acc =>
+    match execActions fl p.actions s with
+    | .error e => (acc.reverse, showErr e)
+    | .ok s1 =>
+      match processBanks p.banks s1.values with
+      | .error e => (acc.reverse, showErr e)
+      | .ok vals => tablesN fl p grouped n { s1 with values := vals, cycle := s1.cycle + 1 } (Dump.wireTable p s1.values grouped :: acc)
+
+def handleTable (fields : List SExp) : String :=
+  let fl := decodeFlags (field fields "flags")
+  let cls := decodeCls (field fields "cls")
+  match field fields "stmts" with
+  | [st] =>
+    match decodeStmts st with
+    | none => "bad-request undecodable-stmts"
+    | some stmts =>
+      match Program.new fl cls {} y86FixedFunctions stmts with
+      | .error ds => "M rej " ++ showDiags ds ++ " ;; S -"
+      | .ok p =>
+        match State.init p (memOf fields) with
+        | .error e => "M init-error " ++ showErr e ++ " ;; S -"
+        | .ok s0 =>
+          let (tabs, fin) := tablesN fl p (natField fields "grouped" 1 == 1) (natField fields "cycles" 1) s0 []
+          "M " ++ escapeNl (String.join (tabs.map (· ++ "=====\n"))) ++ "end=" ++ fin ++ " ;; S -"
+  | _ => "bad-request no-stmts"
+
+def strField (fields : List SExp) (name : String) : String :=
+  match field fields name with
+  | [.atom a] => a
+  | _ => ""
+
+/-- the specification of the exit status (C19): 0 exactly when what was asked was done -/
+def specExit (a : Cli.CliInput) : Nat :=
+  if a.optionError then 1
+  else if a.help then 0
+  else if a.version then 0
+  else if a.check then (if decide (1 ≤ a.nfree ∧ a.nfree ≤ 3) && a.hcl == .accepted then 0 else 1)
+  else if decide (2 ≤ a.nfree ∧ a.nfree ≤ 3) && a.hcl == .accepted && a.yoHasSuffix &&
+      (decide (a.nfree ≠ 3) || a.timeoutValid) && a.yo == .loaded && a.run == .finished then 0 else 1
+
+def handleCli (fields : List SExp) : String :=
+  let b (n : String) : Bool := strField fields n == "1"
+  let traw := if strField fields "traw" == "␀" then "" else unescapeText (strField fields "traw")
+  let a : Cli.CliInput :=
+    { optionError := b "opterr", help := b "help", version := b "version", check := b "check",
+      nfree := natField fields "nfree" 0,
+      hcl := (match strField fields "hcl" with | "accepted" => .accepted | "rejected" => .rejected | _ => .unreadable),
+      yoHasSuffix := b "suffix",
+      yo := (match strField fields "yo" with | "loaded" => .loaded | "unloadable" => .unloadable | _ => .unopenable),
+      timeoutValid := (Cli.parseU32 traw.toList).isSome,
+      run := (if strField fields "run" == "aborted" then .aborted else .finished) }
+  let (e, o) := Cli.mainReal a
+  let extra := if o == .finalState then s!" cycles={strField fields "cycles"} banner={strField fields "banner"}" else ""
+  s!"M exit={e} out={((repr o).pretty.splitOn ".").getLast!}{extra} ;; S exit={specExit a}"
+
 def handle (line : String) : String :=
   match SExp.parse line with
   | none => "bad-request unparsable"
@@ -326,6 +385,8 @@ def handle (line : String) : String :=
     | some ("disasm", args) => handleDisasm args
     | some ("yo", args) => handleYo args
     | some ("dump", fields) => handleDump fields
+    | some ("table", fields) => handleTable fields
+    | some ("cli", fields) => handleCli fields
     | some ("trace", args) => handleTrace args
     | some (t, _) => s!"bad-request unknown-tag {t}"
     | none => "bad-request no-tag"
